@@ -94,6 +94,6 @@ AtEnd ==
     /\ RoundTrips(A, B, NoOpt, out)                 \* C01
     /\ EmptyIffEqual(A, B, NoOpt, out)              \* C05
     /\ HasContext(out) /\ Recurses(out) /\ Minimal(A, B, out) /\ IndicesIncrease(out)     \* C06
-    /\ MentionsOnlyDifferences(A, B, NoOpt, out) /\ NoRedundantHunk(A, B, NoOpt, out)      \* C07
+    /\ MentionsOnlyDifferences(A, B, NoOpt, out) /\ NoRedundantHunk(A, B, NoOpt, out) /\ NoSharedPartReplaced(out)      \* C07
 Terminates == <>(phase = "done")
 =============================================================================
